@@ -216,38 +216,64 @@ def ovr_key(o):
     return f"{o['rmode']}/{t}"
 
 
+def run_key(c, mode):
+    return (f"run:table{c['cid']}/{c['sel']['svc'].split('.')[-1]}.{c['sel']['meth']}/{mode}/{ovr_key(c['ovr'])}/"
+            f"{'>'.join(c['script']) or 'OK'}/phi={c['jit'][0]}:{c['jit'][1]}")
+
+
+SPEC_MUTANTS = ['service_level', 'suffix_match', 'any_service', 'last_match', 'no_deadline', 'ignore_override', 'no_cap',
+                'init_uncapped', 'stale_timeout', 'retry_all', 'check_after_sleep']
+
+
+def spec_mutants(timeout=600):
+    """self-test material: every mutant of Retry.tla must be rejected by TLC on the small configuration.
+    Returns {mutant: name of the violated invariant or None}."""
+    with open(os.path.join(tlc.SPEC, 'Retry.small.cfg')) as f:
+        cfg = f.read().replace('PROPERTY Live\n', '')
+    out = {}
+    for m in SPEC_MUTANTS:
+        r = tlc.run('Retry', cfg.replace('Mutant = "none"', f'Mutant = "{m}"'), deadlock=False, timeout=timeout, workers=4, env=JAVA_MEM)
+        out[m] = r.violated
+    return out
+
+
 def main(chk, args):
+    pool = ThreadPoolExecutor(12)
+    try:
+        _main(chk, args, pool)
+    finally:
+        pool.shutdown(wait=False, cancel_futures=True)
+
+
+def _main(chk, args, pool):
     quick = chk.tier == 'quick'
     rnd = random.Random(chk.seed)
     # 1. TLC: the specification satisfies the property; cases (spec -> code) ------------------------------------------
     scopes = ['table', 'sel_small', 'values'] if quick else ['table', 'sel_small', 'sel_full', 'sel3', 'values']
-    runcfg = 'Retry.emit.run.small.cfg' if quick else 'Retry.emit.run.full.cfg'
-    jobs = {'check small': lambda: tlc.run('Retry', 'Retry.small.cfg', deadlock=False, timeout=1500, workers=4, env=JAVA_MEM)}
-    if not quick:
-        jobs['check full'] = lambda: tlc.run('Retry', 'Retry.full.cfg', deadlock=False, timeout=1500, workers=6, env=JAVA_MEM)
-    for sc in scopes:
-        jobs['emit ' + sc] = (lambda sc=sc: tlc.emit_cases('Retry', f'Retry.emit.{sc}.cfg', deadlock=False, timeout=1500, env=JAVA_MEM))
-    jobs['emit run'] = lambda: tlc.emit_cases('Retry', runcfg, deadlock=False, timeout=1500, env=JAVA_MEM)
+    runcfgs = ['Retry.emit.run.small.cfg', 'Retry.emit.run.wide.cfg'] if quick else ['Retry.emit.run.full.cfg']
     t0 = time.time()
 
     def lap(what):
         print(f'[C09] {what}: {time.time() - t0:.0f}s', flush=True)
-    with ThreadPoolExecutor(len(jobs)) as ex:
-        futs = {k: ex.submit(f) for k, f in jobs.items()}
-        results = {k: f.result() for k, f in futs.items()}
+    # the model-checking runs (invariants + liveness) go on in the background while the cases are executed
+    checks = {'small': pool.submit(tlc.run, 'Retry', 'Retry.small.cfg', deadlock=False, timeout=1500, workers=4, env=JAVA_MEM)}
+    if not quick:
+        checks['full'] = pool.submit(tlc.run, 'Retry', 'Retry.full.cfg', deadlock=False, timeout=1500, workers=4, env=JAVA_MEM)
+    futs = {'emit ' + sc: pool.submit(tlc.emit_cases, 'Retry', f'Retry.emit.{sc}.cfg', deadlock=False, timeout=1500, env=JAVA_MEM)
+            for sc in scopes}
+    for rc in runcfgs:
+        futs['emit run ' + rc.split('.')[3]] = pool.submit(tlc.emit_cases, 'Retry', rc, deadlock=False, timeout=1500, env=JAVA_MEM)
+    results = {k: f.result() for k, f in futs.items()}
     lap('TLC model checking and case emission')
     resolve_cases, run_cases, sels = [], [], None
     for k, r in results.items():
-        if k.startswith('check'):
-            chk.add_tlc(r, f'Retry model check ({k[6:]})')
-            continue
         cases, rr = r
         chk.add_tlc(rr, f'Retry case emission ({k[5:]})')
         if not cases:
             raise core.MachineryError(f'no cases emitted by {k}')
         if rr.tagged.get('SELECTORS'):
             sels = json.loads(json.loads(rr.tagged['SELECTORS'][0]))
-        (run_cases if k == 'emit run' else resolve_cases).extend(cases)
+        (run_cases if k.startswith('emit run') else resolve_cases).extend(cases)
     if not sels:
         raise core.MachineryError('the specification did not print its selectors')
     table = {c['cid']: c for c in resolve_cases if c['cid'] > 0}
@@ -320,20 +346,31 @@ def main(chk, args):
                 if not ok:
                     raise core.MachineryError('retry driver failed:\n' + err)
                 runs.extend(out['traces'])
-    lap(f'{len(runs)} calls driven')
-    # 4. spec -> code comparison of the calls ---------------------------------------------------------------------------
-    for tr in runs:
-        c = by_id[tr['id']]
-        key = (f"run:table{c['cid']}/{c['sel']['svc'].split('.')[-1]}.{c['sel']['meth']}/{tr['mode']}/{ovr_key(c['ovr'])}/"
-               f"{'>'.join(c['script']) or 'OK'}/phi={c['jit'][0]}:{c['jit'][1]}")
-        exp = c['expect']
-        chk.case(key, nontrivial=exp['attempts'] > 1 or exp['rpcTimeouts'] != [NO] or exp['outcome'] != 'ok')
-        d = diff_run(exp, observed(tr))
-        if d:
+        lap(f'{len(runs)} calls driven')
+        # 4. spec -> code comparison of the calls ------------------------------------------------------------------------
+        payload0 = jobs[0][1] if jobs else None
+        bad = []
+        for tr in runs:
+            c = by_id[tr['id']]
+            key = run_key(c, tr['mode'])
+            exp = c['expect']
+            chk.case(key, nontrivial=exp['attempts'] > 1 or exp['rpcTimeouts'] != [NO] or exp['outcome'] != 'ok')
+            d = diff_run(exp, observed(tr))
+            if d:
+                bad.append((key, c, tr, d))
+            traces.append((key, dict(cid=c['cid'], cfg=[], run=True, script=c['script'], events=tr['events']),
+                           dict(case=c, trace=tr)))
+        # a mismatch is re-run once in isolation (fresh interpreter) before it is reported (DESIGN 7.1)
+        for key, c, tr, d in bad[:25]:
+            pl = dict(payload0, cases=[dict(id=c['id'], sel=c['sel'], ovr=c['ovr'], script=c['script'], jit=c['jit'])],
+                      modes=[tr['mode']])
+            ok, out, err = gen.run_driver('harness.drivers.retry', roots[c['cid']], pl, timeout=300)
+            if not ok or out['traces'][0]['events'] != tr['events']:
+                raise core.MachineryError(f'mismatch for {key} did not reproduce in isolation: first {tr["events"]}, '
+                                          f'then {out["traces"][0]["events"] if ok else err}')
+        for n, (key, c, tr, d) in enumerate(bad):
             chk.violation(key, '; '.join(d) + (f" (raised {tr['error']})" if tr.get('error') else ''),
-                          dict(case=c, config=table[c['cid']]['cfg'], trace=tr))
-        traces.append((key, dict(cid=c['cid'], cfg=[], run=True, script=c['script'], events=tr['events']),
-                       dict(case=c, trace=tr)))
+                          dict(case=c, config=table[c['cid']]['cfg'], trace=tr) if n < 200 else dict(case_id=key))
     # 5. code -> spec: batched trace validation ----------------------------------------------------------------------------
     rnd.shuffle(traces)          # balance the batches (deterministic given the seed)
     nb = max(1, -(-len(traces) // 10000)) if len(traces) > 12000 else max(1, min(6, len(traces) // 1500))
@@ -344,6 +381,9 @@ def main(chk, args):
         except RuntimeError as e:
             raise core.MachineryError(str(e))
     lap(f'{len(traces)} traces validated in {nb} batches')
+    for k, f in checks.items():
+        chk.add_tlc(f.result(), f'Retry model check ({k}: invariants + liveness)')
+    lap('model checking joined')
     nacc = nrej = nruns = 0
     for b, (accepted, rejected, rs) in zip(batches, vals):
         for r3 in rs:
@@ -357,6 +397,9 @@ def main(chk, args):
             key, _, ctx = b[idx]
             chk.violation('trace:' + key, f'RetryTrace rejected the recorded behaviour: {info}',
                           dict(tla_trace=t, info=info, **ctx))
+        if len(rejected) >= 10:
+            chk.extra['trace_validation_truncated'] = 'a batch stopped after 10 rejections; the remaining traces of it were not judged'
+
     chk.tlc_runs.append(dict(label='RetryTrace batches', runs=nruns, accepted=nacc, rejected=nrej))
     chk.rule = ('generation cases = abstract service configs enumerated by TLC (Retry.emit.{sel_small,sel_full,sel3,values,table}.cfg: '
                 '1-3 entries, 1-2 names per entry incl. service-level names, other service, suffix-related method names; every '
@@ -382,7 +425,7 @@ def main(chk, args):
     chk.extra['configs_resolved'] = len(enum_cases) + len(cids)
     chk.extra['table_configs'] = cids
     chk.extra['calls'] = len(runs)
-    chk.extra['bounds'] = dict(run_cfg=runcfg, scopes=scopes)
+    chk.extra['bounds'] = dict(run_cfgs=runcfgs, scopes=scopes)
 
 
 main.level = 'model_checking'
